@@ -211,6 +211,8 @@ def run(ctx, prog):
         parts = list(c_.args[0].elts) if c_.args and isinstance(c_.args[0], (ast.Tuple, ast.List)) else list(c_.args[:2])
         ldefs_ = astutil.local_defs(cc.node)
         ptxt = [norm(astutil.expand_locals(x, ldefs_)).replace(' ', '') for x in parts]
+        for w_ in ('_np.asanyarray(', '_np.asarray(', 'np.asanyarray(', 'np.asarray('):      # value-preserving views of the part
+            ptxt = [t[len(w_):-1] if t.startswith(w_) and t.endswith(')') and t.count('(') == 1 else t for t in ptxt]
         ax = next((k.value for k in c_.keywords if k.arg == 'axis'), c_.args[2] if len(c_.args) > 2 else (c_.args[1] if len(c_.args) == 2 and isinstance(c_.args[0], (ast.Tuple, ast.List)) else None))
         axv = astutil.const_value_(ax) if ax is not None else None
         if len(ptxt) == 2 and ptxt[0] == 'self.convergence_traces' and ptxt[1] in NEWLAST and isinstance(axv, int):
